@@ -142,8 +142,20 @@ func (d *downloaderFEP) Download(ctx context.Context, fromBlock uint64, download
 			},
 		}
 
-		// Set the greatest GER injected from retrieved GERs
+		// Set the greatest GER injected from retrieved GERs. The contract is read at the state of
+		// this very block (not at "latest", which can already be several blocks ahead): what is
+		// recorded for a block must only depend on that block and its ancestors, otherwise a reorg
+		// of the newer blocks leaves a GER behind that is not injected on the canonical chain
 		d.populateGreatestInjectedGER(block, gers)
+
+		// The block must still be the same one after the reads (it may have been reorged meanwhile)
+		headerAfterReads, isCanceled := d.GetBlockHeader(ctx, fromBlock)
+		if isCanceled {
+			return
+		}
+		if headerAfterReads.Hash != header.Hash {
+			continue
+		}
 
 		downloadedCh <- *block
 
@@ -186,7 +198,8 @@ func (d *downloaderFEP) populateGreatestInjectedGER(b *sync.EVMBlock, gerInfos [
 	for _, gerInfo := range gerInfos {
 		attempts := 0
 		for {
-			blockHashOrTimestamp, err := d.l2GERManager.GlobalExitRootMap(&bind.CallOpts{Pending: false}, gerInfo.GlobalExitRoot)
+			blockHashOrTimestamp, err := d.l2GERManager.GlobalExitRootMap(
+				&bind.CallOpts{Pending: false, BlockNumber: new(big.Int).SetUint64(b.Num)}, gerInfo.GlobalExitRoot)
 			if err != nil {
 				attempts++
 				log.Errorf("failed to check if global exit root %s is injected on L2: %s", gerInfo.GlobalExitRoot.Hex(), err)
